@@ -152,6 +152,10 @@ class Atomic(Piece):
     def cut(self, a, b):
         if same_int(a, 0) and same_int(b, self.length()):
             return self
+        if isinstance(a, int) and isinstance(b, int) and isinstance(self.length(), int):
+            return Frag(self, a, b)
+        if s_and(s_eq(a, 0), s_eq(b, self.length())):     # decided by the solver; forks only if both are possible
+            return self
         return Frag(self, a, b)
 
 
@@ -170,11 +174,13 @@ class Num(Atomic):
             if isinstance(self.n, int):
                 self._len = len(format(self.n, '0%d' % self.width))
             else:
-                t = z3.IntVal(self.width + 4)
-                for extra in (3, 2, 1, 0):
-                    w = max(self.width + extra, 1)
-                    t = z3.If(self.n.t < 10 ** w, z3.IntVal(w), t)
-                self._len = mk_int(t)
+                # decided by the solver on this path (forks only when an over-wide numeral is really possible)
+                w = max(self.width, 1)
+                while not (self.n < 10 ** w):
+                    w += 1
+                    if w > self.width + 6:
+                        raise Unsupported('numeral far wider than its field')
+                self._len = w
         return self._len
 
     def recode(self, op, enc):
@@ -241,6 +247,9 @@ class Frag(Piece):
         return Frag(self.base, self.a + a, self.a + b, self.chain)
 
     def recode(self, op, enc):
+        if isinstance(self.base, (Num, Tok)) and not self.chain:
+            # single-byte codecs commute with cutting: push the codec into the atom
+            return Frag(self.base.recode(op, enc), self.a, self.b)
         return Frag(self.base, self.a, self.b, _push(self.chain, op, enc))
 
     def __repr__(self):
@@ -275,7 +284,7 @@ def norm(kind, pieces):
             if isinstance(p, Fill) and isinstance(q, Fill) and q.ch == p.ch:
                 out[-1] = Fill(p.ch, q.count + p.count)
                 continue
-            if isinstance(p, Frag) and isinstance(q, Frag) and q.base is p.base and q.chain == p.chain and same_int(q.b, p.a):
+            if isinstance(p, Frag) and isinstance(q, Frag) and _same_piece(q.base, p.base) and q.chain == p.chain and same_int(q.b, p.a):
                 if same_int(q.a, 0) and same_int(p.b, p.base.length()) and not p.chain:
                     out[-1] = p.base
                 else:
@@ -760,7 +769,7 @@ def _same_piece(p, q):
     if isinstance(p, Tok):
         return p.d is q.d and p.fmt == q.fmt and p.chain == q.chain
     if isinstance(p, Frag):
-        return p.base is q.base and p.chain == q.chain and same_int(p.a, q.a) and same_int(p.b, q.b)
+        return _same_piece(p.base, q.base) and p.chain == q.chain and same_int(p.a, q.a) and same_int(p.b, q.b)
     return False
 
 
